@@ -267,6 +267,23 @@ var c10Doc struct {
 // entry document of VerifC10_V2AccountAnchors (the native replay uses the real
 // decoder on the same text).
 func VerifStub_json_Unmarshal(data []byte, v any) error {
+	if string(data) == "wire" {
+		// the round trip of VerifC10_V2RoundTrip: what json.Marshal was given comes back
+		// (string fields tagged omitempty are absent when empty, which decodes to empty)
+		switch d := v.(type) {
+		case *proposerRelayConfigJSON:
+			*d = *(c10Wire.(*proposerRelayConfigJSON))
+		case *baseRelayConfigJSON:
+			*d = *(c10Wire.(*baseRelayConfigJSON))
+		case *proposerConfigJSON:
+			*d = *(c10Wire.(*proposerConfigJSON))
+		case *executionConfigJSON:
+			*d = *(c10Wire.(*executionConfigJSON))
+		default:
+			return errors.New("target outside the catalogue")
+		}
+		return nil
+	}
 	if string(data) != c10Doc.text {
 		return errors.New("document outside the catalogue")
 	}
@@ -323,4 +340,119 @@ func VerifC10_V2AccountAnchors() {
 		vnd.Cover("C10.v2.account-entry-skipped")
 	}
 	vnd.Assert(got.FeeRecipient == want, "C10.v2.first-entry-matching-the-whole-account-name-applies")
+}
+
+
+// ---------------------------------------------------------------------------
+// marshal / unmarshal round trip
+
+var c10Wire any
+
+// VerifStub_json_Marshal stands for encoding/json.Marshal on the four wire
+// structs of this package in VerifC10_V2RoundTrip: the JSON text itself is
+// not modelled, the struct handed to the encoder is what the decoder delivers
+// (native replay runs the real encoder and decoder).
+func VerifStub_json_Marshal(v any) ([]byte, error) {
+	c10Wire = v
+	return []byte("wire"), nil
+}
+
+type c10Opt struct {
+	fee   *bellatrix.ExecutionAddress
+	gas   *uint64
+	grace *time.Duration
+	key   *phase0.BLSPubKey
+}
+
+// ndOpt: every optional setting absent or present; numbers symbolic (grace in
+// whole milliseconds below 2^40, as the document holds milliseconds), addresses
+// and keys one concrete value (their hex text is concrete).
+func ndOpt(name string) c10Opt {
+	var o c10Opt
+	if vnd.Bool(name + ".fee.present") {
+		a := bellatrix.ExecutionAddress{1, 2, 3, 4, 5, 6, 7, 8, 9, 10, 11, 12, 13, 14, 15, 16, 17, 18, 19, 20}
+		o.fee = &a
+	}
+	if vnd.Bool(name + ".gas.present") {
+		g := vnd.U64(name + ".gas")
+		o.gas = &g
+	}
+	if vnd.Bool(name + ".grace.present") {
+		ms := vnd.U64(name + ".grace.ms")
+		vnd.Assume(ms < 1<<40)
+		g := time.Duration(ms) * time.Millisecond
+		o.grace = &g
+	}
+	if vnd.Bool(name + ".key.present") {
+		k := phase0.BLSPubKey{0xaa, 0xbb}
+		o.key = &k
+	}
+	return o
+}
+
+func sameU64(a, b *uint64) bool { return (a == nil) == (b == nil) && (a == nil || *a == *b) }
+func sameDur(a, b *time.Duration) bool {
+	return (a == nil) == (b == nil) && (a == nil || *a == *b)
+}
+func sameAddr(a, b *bellatrix.ExecutionAddress) bool {
+	return (a == nil) == (b == nil) && (a == nil || *a == *b)
+}
+func sameKey(a, b *phase0.BLSPubKey) bool { return (a == nil) == (b == nil) && (a == nil || *a == *b) }
+
+// VerifC10_V2RoundTrip: each of the four version 2 configuration objects
+// survives MarshalJSON followed by UnmarshalJSON with every setting as it was:
+// present settings keep their value (zero included), absent ones stay absent.
+func VerifC10_V2RoundTrip() {
+	o := ndOpt("o")
+	switch vnd.Choose("object", 4) {
+	case 0:
+		in := &ProposerRelayConfig{Disabled: vnd.Bool("disabled"), PublicKey: o.key, FeeRecipient: o.fee, GasLimit: o.gas, Grace: o.grace}
+		doc, err := in.MarshalJSON()
+		vnd.Assert(err == nil, "C10.roundtrip.marshal")
+		out := &ProposerRelayConfig{}
+		vnd.Assert(out.UnmarshalJSON(doc) == nil, "C10.roundtrip.unmarshal")
+		vnd.Assert(out.Disabled == in.Disabled && sameKey(out.PublicKey, in.PublicKey) && sameAddr(out.FeeRecipient, in.FeeRecipient), "C10.roundtrip.proposer-relay-entry-same-meaning")
+		vnd.Assert(sameU64(out.GasLimit, in.GasLimit), "C10.roundtrip.gas-limit-kept")
+		vnd.Assert(sameDur(out.Grace, in.Grace), "C10.roundtrip.grace-kept-zero-included")
+		vnd.Assert(out.MinValue == nil, "C10.roundtrip.absent-min-value-stays-absent")
+	case 1:
+		in := &BaseRelayConfig{PublicKey: o.key, FeeRecipient: o.fee, GasLimit: o.gas, Grace: o.grace}
+		doc, err := in.MarshalJSON()
+		vnd.Assert(err == nil, "C10.roundtrip.marshal")
+		out := &BaseRelayConfig{}
+		vnd.Assert(out.UnmarshalJSON(doc) == nil, "C10.roundtrip.unmarshal")
+		vnd.Assert(sameKey(out.PublicKey, in.PublicKey) && sameAddr(out.FeeRecipient, in.FeeRecipient), "C10.roundtrip.base-relay-entry-same-meaning")
+		vnd.Assert(sameU64(out.GasLimit, in.GasLimit), "C10.roundtrip.gas-limit-kept")
+		vnd.Assert(sameDur(out.Grace, in.Grace), "C10.roundtrip.grace-kept-zero-included")
+		vnd.Assert(out.MinValue == nil, "C10.roundtrip.absent-min-value-stays-absent")
+	case 2:
+		relays := map[string]*ProposerRelayConfig{"https://r.example": {}}
+		in := &ProposerConfig{Validator: phase0.BLSPubKey{7}, FeeRecipient: o.fee, GasLimit: o.gas, Grace: o.grace, ResetRelays: vnd.Bool("reset"), Relays: relays}
+		if vnd.Bool("by-account") {
+			in.Validator = phase0.BLSPubKey{}
+			in.Account = regexp.MustCompile("^Wallet 1/.*$")
+		}
+		doc, err := in.MarshalJSON()
+		vnd.Assert(err == nil, "C10.roundtrip.marshal")
+		out := &ProposerConfig{}
+		vnd.Assert(out.UnmarshalJSON(doc) == nil, "C10.roundtrip.unmarshal")
+		vnd.Assert(out.Validator == in.Validator && (out.Account == nil) == (in.Account == nil), "C10.roundtrip.proposer-kept")
+		if in.Account != nil && out.Account != nil {
+			vnd.Assert(out.Account.String() == in.Account.String(), "C10.roundtrip.proposer-kept")
+		}
+		vnd.Assert(sameAddr(out.FeeRecipient, in.FeeRecipient) && out.ResetRelays == in.ResetRelays && len(out.Relays) == 1, "C10.roundtrip.proposer-entry-same-meaning")
+		vnd.Assert(sameU64(out.GasLimit, in.GasLimit), "C10.roundtrip.gas-limit-kept")
+		vnd.Assert(sameDur(out.Grace, in.Grace), "C10.roundtrip.grace-kept-zero-included")
+	case 3:
+		in := &ExecutionConfig{Version: 2, FeeRecipient: o.fee, GasLimit: o.gas, Grace: o.grace,
+			Relays: map[string]*BaseRelayConfig{"https://r.example": {}}, Proposers: []*ProposerConfig{{Validator: phase0.BLSPubKey{7}}}}
+		doc, err := in.MarshalJSON()
+		vnd.Assert(err == nil, "C10.roundtrip.marshal")
+		out := &ExecutionConfig{}
+		vnd.Assert(out.UnmarshalJSON(doc) == nil, "C10.roundtrip.unmarshal")
+		vnd.Assert(sameAddr(out.FeeRecipient, in.FeeRecipient) && len(out.Relays) == 1 && len(out.Proposers) == 1, "C10.roundtrip.configuration-same-meaning")
+		vnd.Assert(sameU64(out.GasLimit, in.GasLimit), "C10.roundtrip.gas-limit-kept")
+		vnd.Assert(sameDur(out.Grace, in.Grace), "C10.roundtrip.grace-kept-zero-included")
+	}
+	vnd.Cover("C10.roundtrip.checked")
 }
